@@ -436,6 +436,10 @@ def run(ctx):
     u = 'qmail-pop3d.c'
     # ---- 1. stuffing
     r1 = rep.rule('C19.1-stuffing', 'R-TRANSDUCER', 'blast (line level, every sequence of up to 4 lines, limit 0/1/2/3): the bytes written equal the documented encoding: every non-empty line starting with "." is preceded by an extra ".", then the line, then CRLF; the limit counts body lines only; CRLF.CRLF once and a flush')
+    # the lines blast() sends are what getln() read: lines longer than the input buffer arrive whole and inside their reservation
+    from rules import libtab as _lt
+    for inst_, v_ in sorted(_lt.getln_sites(db, rep, prog).items()):
+        r1.check(v_[0], inst_, v_[1], v_[2], v_[3])
     bl = prog.fn('blast', u)
     st = 0
     nret = 0
